@@ -189,12 +189,17 @@ LinePtCases == UNION {
         d \in (IF sh = "line" THEN {<<0, 0>>, <<4, -8>>} ELSE {<<0, 0>>})} : sh \in {"line", "polyline"}}
 
 \* per-axis scalar references: x="#r~x2" etc.; the other axis is absolute
-ScalarCases ==
+\* ... optionally followed by a delta, as after a size reference: a number is added, a percentage scales
+ScalarDeltas == {<<"none", 0>>, <<"abs", 8>>, <<"abs", -4>>, <<"pct", 50>>, <<"pct", 150>>}
+ScalarWith(r, s, d) == CASE d[1] = "abs" -> Scalar(r, s) + d[2] [] d[1] = "pct" -> (Scalar(r, s) * d[2]) \div 100 [] OTHER -> Scalar(r, s)
+ScalarCases == {x \in
     {[fam |-> "rel", form |-> "scalar", refkind |-> rk, ref |-> r, kind |-> "rect", w |-> 8, h |-> 4,
-      attr |-> a, scalar |-> s,
-      exp |-> IF a = "x" THEN B(Scalar(r, s), 4, Scalar(r, s) + 8, 8)
-              ELSE B(4, Scalar(r, s), 12, Scalar(r, s) + 4)] :
-        rk \in {"rect", "ellipse", "line"}, r \in RefBoxes, a \in {"x", "y"}, s \in ScalarNames}
+      attr |-> a, scalar |-> s, dmode |-> d[1], dval |-> d[2],
+      exp |-> IF a = "x" THEN B(ScalarWith(r, s, d), 4, ScalarWith(r, s, d) + 8, 8)
+              ELSE B(4, ScalarWith(r, s, d), 12, ScalarWith(r, s, d) + 4)] :
+        rk \in {"rect", "ellipse", "line"}, r \in RefBoxes, a \in {"x", "y"}, s \in ScalarNames, d \in ScalarDeltas} :
+    \* (only percentages that come out exact on the grid)
+    x.dmode # "pct" \/ (Scalar(x.ref, x.scalar) * x.dval) % 100 = 0}
 
 \* relative size: wh="#r", "#r 50%", "#r 8 -4" (quarter units), dw/dh
 SizeCases ==
